@@ -205,7 +205,40 @@ pub fn oracle(cfg: StateConfig, hist: &[RoundRec], final_state: &State) -> Vec<(
     bad
 }
 
+pub fn replay(path: &str) -> i32 {
+    let s = std::fs::read_to_string(path).expect("MACHINERY: cannot read replay file");
+    let v: serde_json::Value = serde_json::from_str(&s).expect("MACHINERY: replay JSON");
+    let r = if v.get("replay").is_some() { &v["replay"] } else { &v };
+    let first_ttl = r["first_ttl"].as_u64().unwrap() as u8;
+    let max_flows = r["max_flows"].as_u64().unwrap() as usize;
+    let al = alphabet(first_ttl);
+    let cfg = StateConfig { max_samples: 3, max_flows };
+    let mut st = State::new(cfg);
+    let mut hist = vec![];
+    for (i, x) in r["history"].as_array().unwrap().iter().enumerate() {
+        let sh = &al[x.as_u64().unwrap() as usize];
+        let rr = stateexp::build(sh, i, (i as u16) * 16);
+        stateexp::apply(&mut st, &rr);
+        println!("round {i}: {:?} -> round_flow_id {} flows {:?}", sh.outs, st.round_flow_id().0, st.flows().iter().map(|(f, id)| format!("{}: {f} ({} rounds)", id.0, st.round_count(*id))).collect::<Vec<_>>());
+        hist.push(rr);
+    }
+    let bad = oracle(cfg, &hist, &st);
+    for (k, d) in &bad {
+        println!("DISCREPANCY {k}: {d}");
+    }
+    if bad.is_empty() {
+        println!("replay: property held");
+        0
+    } else {
+        println!("VIOLATION property=C15 replay={path}");
+        1
+    }
+}
+
 pub fn run(args: &Args) -> i32 {
+    if let Some(path) = &args.replay {
+        return replay(path);
+    }
     let tier = args.tier;
     let mut rep = Report::new("C15", tier, "model_checking");
     let findings: Mutex<Findings> = Mutex::new(Findings::new());
